@@ -225,6 +225,8 @@ class Ctx:
                 self.notes[k] = set(self.notes.get(k, set())) | set(v)
             elif isinstance(v, collections.Counter):
                 self.notes.setdefault(k, collections.Counter()).update(v)
+            elif isinstance(v, dict):
+                self.notes.setdefault(k, {}).update(v)
             else:
                 self.notes.setdefault(k, v)
 
